@@ -64,6 +64,19 @@ impl CodeStatement for Statement {
             + ParallelMoves<Code, Temporary>
             + Utils<Temporary>,
     {
+        #[cfg(feature = "verif_hooks")]
+        {
+            let mut marker = "@env".to_string();
+            for binding in &context.bindings {
+                let chi = match binding.chi {
+                    axcut::syntax::Chirality::Prd => "prd",
+                    axcut::syntax::Chirality::Cns => "cns",
+                    axcut::syntax::Chirality::Ext => "ext",
+                };
+                marker.push_str(&format!(" {}:{chi}", binding.var.print_to_string(None)));
+            }
+            instructions.push(Backend::comment(marker));
+        }
         match self {
             Statement::Substitute(substitute) => {
                 substitute.code_statement::<Backend, _, _, _>(types, context, instructions);
